@@ -75,6 +75,13 @@ func boltFrame(v2 bool, name string, typ byte, cmdcode uint16, id uint32, class 
 		// the last value grows together with the header block
 		f.Blocks = append(f.Blocks, Block{Name: "last header value", End: hstart + len(hdr), Lens: []int{1, 3 + len(kvLens) - 1}})
 	}
+	// bytes that select the decoding path (protocol code 1 inside a boltv2 stream delegates to the bolt v1
+	// decoder; the command type selects the request/response layout, i.e. WHERE the length fields are)
+	if v2 {
+		f.Selectors = []Selector{{Name: "protocolCode", Off: 0}, {Name: "cmdType", Off: 2}, {Name: "cmdCode", Off: 4}, {Name: "codec", Off: 10}, {Name: "switchCode", Off: 11}}
+	} else {
+		f.Selectors = []Selector{{Name: "protocolCode", Off: 0}, {Name: "cmdType", Off: 1}, {Name: "cmdCode", Off: 3}, {Name: "codec", Off: 9}}
+	}
 	return f
 }
 
@@ -117,6 +124,8 @@ func dubboFrame(name string, flag, status byte, id uint64, payload *hb) Frame {
 		f.Fields = append(f.Fields, Field{Name: fmt.Sprintf("hessianStrLen[%d]", i), Off: 16 + o, Width: 1})
 	}
 	f.Blocks = []Block{{Name: "payload", End: len(b), Lens: []int{0}}}
+	// flag = request|twoway|event bits + serialization id: selects heartbeat / request (payload parsed) / response
+	f.Selectors = []Selector{{Name: "flag", Off: 2}, {Name: "status", Off: 3}}
 	return f
 }
 
@@ -167,6 +176,9 @@ func thriftFrame(name string, service string, id uint64, mtype byte, method stri
 		{Name: "body", End: len(b), Lens: []int{0, 1}},
 		{Name: "body(outer length only)", End: len(b), Lens: []int{0}},
 	}
+	// TBinaryProtocol: a first body byte >= 0x80 selects the strict (versioned) message header, otherwise
+	// the 4 bytes are the LENGTH of the method name (old non-strict layout)
+	f.Selectors = []Selector{{Name: "version", Off: 12}, {Name: "strictVersion[0]", Off: headerEnd}, {Name: "strictVersion[1]", Off: headerEnd + 1}, {Name: "messageType", Off: headerEnd + 3}}
 	return f
 }
 
@@ -185,6 +197,7 @@ func ThriftFrames() []Frame {
 // tarsOne walks ONE field starting at off; end reports a STRUCT_END.
 func tarsOne(b []byte, off int, f *Frame, path string) (next int, end bool) {
 	head := b[off]
+	headOff := off
 	ty, tag := head&0x0f, int(head>>4)
 	off++
 	if tag == 15 {
@@ -204,15 +217,25 @@ func tarsOne(b []byte, off int, f *Frame, path string) (next int, end bool) {
 	case 6:
 		n := int(b[off])
 		f.Fields = append(f.Fields, Field{Name: nm + ":string1Len", Off: off, Width: 1})
+		f.Selectors = append(f.Selectors, Selector{Name: nm + ":head", Off: headOff, Lens: []int{0, len(f.Fields) - 1}})
 		off += 1 + n
 		f.Blocks = append(f.Blocks, Block{Name: nm + ":string1", End: off, Lens: []int{0, len(f.Fields) - 1}})
 	case 7:
 		n := int(binary.BigEndian.Uint32(b[off:]))
 		f.Fields = append(f.Fields, Field{Name: nm + ":string4Len", Off: off, Width: 4})
+		f.Selectors = append(f.Selectors, Selector{Name: nm + ":head", Off: headOff, Lens: []int{0, len(f.Fields) - 1}})
 		off += 4 + n
 		f.Blocks = append(f.Blocks, Block{Name: nm + ":string4", End: off, Lens: []int{0, len(f.Fields) - 1}})
 	case 8, 9: // map, list: size as an int field with tag 0, then 2*size / size elements
-		n, o2, _ := tarsInt(b, off, f, nm+":size")
+		n, o2, si := tarsInt(b, off, f, nm+":size")
+		if si >= 0 {
+			// the container's head. (NOT the head of its size INT: re-typing a 1-byte size as a 4-byte INT makes the
+			// following bytes part of the count, and TarsGo's generated ReadFrom then iterates up to 2^31 times over
+			// non-required reads that silently do nothing at the end of the data - ~1 s per 2^25 announced entries,
+			// returning a frame. Hundreds of such inputs would take the check minutes without any of them being a
+			// verdict of this oracle (the calls do return); see findings/C08.md "O1".)
+			f.Selectors = append(f.Selectors, Selector{Name: nm + ":head", Off: headOff, Lens: []int{0, si}})
+		}
 		off = o2
 		if ty == 8 {
 			n *= 2
@@ -228,6 +251,11 @@ func tarsOne(b []byte, off int, f *Frame, path string) (next int, end bool) {
 	case 13: // simple list: head byte (type byte), size int, bytes
 		off++
 		n, o2, li := tarsInt(b, off, f, nm+":bytesLen")
+		if li >= 0 {
+			// SIMPLE_LIST head, element-type byte, head of the length INT
+			f.Selectors = append(f.Selectors, Selector{Name: nm + ":head", Off: headOff, Lens: []int{0, li}}, Selector{Name: nm + ":elemType", Off: off - 1, Lens: []int{0, li}},
+				Selector{Name: nm + ":bytesLen:head", Off: off, Lens: []int{0, li}})
+		}
 		off = o2 + n
 		if li >= 0 {
 			f.Blocks = append(f.Blocks, Block{Name: nm + ":bytes", End: off, Lens: []int{0, li}})
@@ -300,6 +328,11 @@ func tarsFrame(name string, w interface{ WriteTo(*codec.Buffer) error }) Frame {
 // two other forms a tars peer may legally send and TarsGo's reader accepts: SIMPLE_LIST with the length as
 // a 4-byte INT, and LIST of BYTE elements with the length as a 4-byte INT.
 func tarsWideVector(body []byte, tag byte, asList bool) []byte {
+	return tarsVector(body, tag, asList, 4)
+}
+
+// tarsVector: the same with the length as a 4-byte INT (width 4) or a 2-byte SHORT (width 2).
+func tarsVector(body []byte, tag byte, asList bool, width int) []byte {
 	i := bytes.Index(body, []byte{tag<<4 | 0x0d, 0x00, 0x00}) // SIMPLE_LIST, head BYTE, length as BYTE (tag 0)
 	if i < 0 {
 		panic("c08: canonical sBuffer not found")
@@ -307,13 +340,19 @@ func tarsWideVector(body []byte, tag byte, asList bool) []byte {
 	n := int(body[i+3])
 	data := body[i+4 : i+4+n]
 	out := append([]byte(nil), body[:i]...)
+	ln := []byte{0x02, 0, 0, 0, byte(n)} // length INT
+	if width == 2 {
+		ln = []byte{0x01, 0, byte(n)} // length SHORT
+	}
 	if asList {
-		out = append(out, tag<<4|0x09, 0x02, 0, 0, 0, byte(n)) // LIST, length INT
+		out = append(out, tag<<4|0x09) // LIST
+		out = append(out, ln...)
 		for _, d := range data {
 			out = append(out, 0x00, d) // element: tag 0 BYTE
 		}
 	} else {
-		out = append(out, tag<<4|0x0d, 0x00, 0x02, 0, 0, 0, byte(n)) // SIMPLE_LIST, head BYTE, length INT
+		out = append(out, tag<<4|0x0d, 0x00) // SIMPLE_LIST, head BYTE
+		out = append(out, ln...)
 		out = append(out, data...)
 	}
 	return append(out, body[i+4+n:]...)
@@ -334,8 +373,99 @@ func TarsFrames() []Frame {
 			SServantName: "App.Svc.Obj", SFuncName: "hello", SBuffer: []int8{1, 2, 3, 4, 5}, ITimeout: 3000}), 7, false)),
 		tarsAnnotate("response, body as SIMPLE_LIST with 4-byte length", tarsWideVector(tarsBody(&requestf.ResponsePacket{IVersion: 1, IRequestId: 7, SBuffer: []int8{9, 8, 7},
 			SResultDesc: "ok"}), 6, false)),
+		// the remaining combinations of {request, response} x {SIMPLE_LIST, LIST} x {SHORT, INT length}: the guard in
+		// tars/decoder.go (checkVectorLen) branches on the direction (tag 7 / tag 6), the vector form and reads the
+		// length through the width-selecting INT head
+		tarsAnnotate("request, body as SIMPLE_LIST with 2-byte length", tarsVector(tarsBody(&requestf.RequestPacket{IVersion: 1, IRequestId: 8,
+			SServantName: "App.Svc.Obj", SFuncName: "hello", SBuffer: []int8{1, 2, 3, 4, 5}, ITimeout: 3000}), 7, false, 2)),
+		tarsAnnotate("response, body as SIMPLE_LIST with 2-byte length", tarsVector(tarsBody(&requestf.ResponsePacket{IVersion: 1, IRequestId: 9, SBuffer: []int8{9, 8, 7},
+			SResultDesc: "ok"}), 6, false, 2)),
+		tarsAnnotate("request, body as LIST of bytes with 2-byte length", tarsVector(tarsBody(&requestf.RequestPacket{IVersion: 1, IRequestId: 10,
+			SServantName: "App.Svc.Obj", SFuncName: "hello", SBuffer: []int8{1, 2, 3, 4, 5}, ITimeout: 3000}), 7, true, 2)),
+		tarsAnnotate("response, body as LIST of bytes with 2-byte length", tarsVector(tarsBody(&requestf.ResponsePacket{IVersion: 1, IRequestId: 11, SBuffer: []int8{9, 8, 7},
+			SResultDesc: "ok"}), 6, true, 2)),
+		tarsAnnotate("response, body as LIST of bytes with 4-byte length", tarsVector(tarsBody(&requestf.ResponsePacket{IVersion: 1, IRequestId: 12, SBuffer: []int8{9, 8, 7},
+			SResultDesc: "ok"}), 6, true, 4)),
 		// last: on the unfixed tree every large length in this frame costs GiBs and up to 2^31 loop iterations
 		tarsAnnotate("request, body as LIST of bytes with 4-byte length", tarsWideVector(tarsBody(&requestf.RequestPacket{IVersion: 1, IRequestId: 6,
 			SServantName: "App.Svc.Obj", SFuncName: "hello", SBuffer: []int8{1, 2, 3, 4, 5}, ITimeout: 3000}), 7, true)),
 	}
+}
+
+// ---------------------------------------------------------------- constructed grids
+
+// BoltGrid yields CONSTRUCTED bolt (v1) / boltv2 frames: command type {response, request, one-way,
+// unknown} x command code {heartbeat, request, response} x class length {0,1,2} x header-block length
+// {0,1,3,4,5,8,9,10} x content length {0,1,2} x 2 header-block fills x {complete, last byte missing, one
+// byte of a next frame}. The decoders skip class / header / content when the respective length is 0 and
+// read the three lengths at offsets that depend on the command type.
+func BoltGrid(target string, v2 bool, yield func(Case) bool) bool {
+	hdrFills := [][]byte{
+		{0, 0, 0, 1, 'k', 0, 0, 0, 1, 'v'},   // "k"="v", cut anywhere
+		{0, 0, 0, 0, 0, 0, 0, 0, 0xff, 0xff}, // ""="" then a dangling 0xffff
+	}
+	for _, typ := range []byte{0, 1, 2, 3} {
+		for _, code := range []uint16{0, 1, 2} {
+			for classLen := 0; classLen <= 2; classLen++ {
+				for _, hl := range []int{0, 1, 3, 4, 5, 8, 9, 10} {
+					for contentLen := 0; contentLen <= 2; contentLen++ {
+						for hi, hf := range hdrFills {
+							var b []byte
+							if v2 {
+								b = append(b, 2, 1, typ)
+							} else {
+								b = append(b, 1, typ)
+							}
+							b = append(b, byte(code>>8), byte(code), 1, 0, 0, 0, 5, 1)
+							if v2 {
+								b = append(b, 0)
+							}
+							if typ == 0 {
+								b = append(b, 0, 0)
+							} else {
+								b = append(b, 0, 0, 0x0b, 0xb8)
+							}
+							b = append(b, 0, byte(classLen), 0, byte(hl), 0, 0, 0, byte(contentLen))
+							b = append(b, "cl"[:classLen]...)
+							b = append(b, hf[:hl]...)
+							b = append(b, "xy"[:contentLen]...)
+							desc := fmt.Sprintf("cmdType=%d cmdCode=%d classLen=%d headerLen=%d (fill %d) contentLen=%d", typ, code, classLen, hl, hi, contentLen)
+							variants := [][]byte{b, b[:len(b)-1], append(append([]byte(nil), b...), b[0])}
+							for vi, vb := range variants {
+								if !yield(Case{Target: target, Frame: "constructed", Class: "grid", Desc: desc + []string{"", " last byte missing", " + first byte of a next frame"}[vi], Hex: fmt.Sprintf("%x", vb)}) {
+									return false
+								}
+							}
+						}
+					}
+				}
+			}
+		}
+	}
+	return true
+}
+
+// DubboGrid yields CONSTRUCTED dubbo frames: every value of the flag byte (request / two-way / event
+// bits x all 32 serialization ids) x status {0,20,255} x payload {the hessian2 request payload cut to
+// 0,1,2,3,len-1,len bytes; a single null} with the data length equal to the payload length.
+func DubboGrid(target string, yield func(Case) bool) bool {
+	full := (&hb{}).str("2.0.2").str("com.x.Svc").str("1.0").str("hello").str("Ljava/lang/String;I").str("arg").raw(0x91).
+		raw('H').str("path").str("com.x.Svc").raw('Z')
+	var payloads [][]byte
+	for _, n := range []int{0, 1, 2, 3, len(full.b) - 1, len(full.b)} {
+		payloads = append(payloads, full.b[:n])
+	}
+	payloads = append(payloads, []byte{'N'})
+	for flag := 0; flag < 256; flag++ {
+		for _, status := range []byte{0, 20, 255} {
+			for pi, pl := range payloads {
+				b := []byte{0xda, 0xbb, byte(flag), status, 0, 0, 0, 0, 0, 0, 0, 7, 0, 0, 0, byte(len(pl))}
+				b = append(b, pl...)
+				if !yield(Case{Target: target, Frame: "constructed", Class: "grid", Desc: fmt.Sprintf("flag=%#02x status=%d payload variant %d (%d bytes)", flag, status, pi, len(pl)), Hex: fmt.Sprintf("%x", b)}) {
+					return false
+				}
+			}
+		}
+	}
+	return true
 }
